@@ -425,7 +425,7 @@ func c08Obj(ns, name string, replicas int64, a any, x int64) map[string]any {
 }
 
 func runC08(r *Run) {
-	r.Rule = "per case: one real resourceInformer on kube-client/fake with a jq filter drawn from the fragment (paths incl. missing keys and paths through scalars, literals, object/array construction, `//`; results object/array/scalar/null/error) or no filter, one of the 8 subsets of {Added,Modified,Deleted} (or the WithEventTypes(nil) default), keepFullObjectsInMemory on/off; 0-3 objects loaded by the real loadExistedObjects, then a history of 3-14 changes over 1-3 objects handed to the real OnAdd/OnUpdate/OnDelete: informer-start replay of the listed objects, resync of the identical state, changes only outside the filter's paths, changes inside them, A->B->A, deletes (also with a final state that differs from the cached one), re-adds, Modified and Deleted for objects the informer does not know. Every distinct object state is also run through the real applyFilter and compared with the model's jq evaluator. A case is non-trivial when it delivers >= 3 changes and contains at least one re-delivery or outside-only change; distinct = distinct op-line sequences. `cluster` cases start the informer on the fake client and change the objects in the cluster instead."
+	r.Rule = "per case: one real resourceInformer on kube-client/fake with a jq program drawn from the fragment (paths incl. missing keys and paths through scalars, literals, object/array construction, `//`; results object/array/scalar/null/error; 12% with two or three expressions joined by `,` = several outputs, merged the legacy way) or no filter, one of the 8 subsets of {Added,Modified,Deleted} (or the WithEventTypes(nil) default), keepFullObjectsInMemory on/off; 0-3 objects loaded by the real loadExistedObjects, then a history of 3-14 changes over 1-3 objects handed to the real OnAdd/OnUpdate/OnDelete: informer-start replay of the listed objects, resync of the identical state, changes only outside the filter's paths, changes inside them, A->B->A, deletes (also with a final state that differs from the cached one), re-adds, Modified and Deleted for objects the informer does not know. Every distinct object state is also run through the real applyFilter and compared with the model's jq evaluator. A case is non-trivial when it delivers >= 3 changes and contains at least one re-delivery or outside-only change; distinct = distinct op-line sequences. `cluster` cases start the informer on the fake client and change the objects in the cluster instead."
 
 	// ---- corpus: the counterexamples of the repaired defect (filter results that are not objects)
 	corpus := []struct {
@@ -437,10 +437,16 @@ func runC08(r *Run) {
 		{"null-valued filter .nope // scalar alternative", g4AltF(g4Path("nope"), g4Path("spec", "replicas"))},
 		{"object-valued filter {r:.spec.replicas}", g4ObjF(g4Fld("r", g4Path("spec", "replicas")))},
 		{"no filter: the whole object is the projection", nil},
+		{"two object outputs (.spec),(.status): the legacy merge", &jqF{Kind: "comma", Items: []*jqF{g4Path("spec"), g4Path("status")}}},
+		{"two scalar outputs (.spec.replicas),(.spec.a): nothing to merge", &jqF{Kind: "comma", Items: []*jqF{g4Path("spec", "replicas"), g4Path("spec", "a")}}},
 	}
 	for i, cc := range corpus {
 		cc := cc
-		r.One(i, func(c *Case, _ *Rng) {
+		idx := i
+		if i >= 5 {
+			idx = i + 2 // 5 and 6 are the failing-filter corpus cases below
+		}
+		r.One(idx, func(c *Case, _ *Rng) {
 			c.Desc = "corpus: " + cc.desc
 			c.Nontrivial = true
 			ns := fmt.Sprintf("c08-%d", c.Idx)
